@@ -123,6 +123,11 @@ func (s *Swarm[T]) Close() error {
 	err := s.inner.Close()
 	s.hub.CloseWithError(p2p.ErrClosed)
 	s.eg.Wait()
+	// stop the timers of every channel, otherwise they keep calling the (closed) inner swarm forever.
+	s.store.purge(func(_ string, c *channelState) bool {
+		c.Channel.Close()
+		return false
+	})
 	return err
 }
 
